@@ -21,7 +21,8 @@ M1 = ['a', 'sp', 'dB', 'uB', 'uBt', 'cb', 'rB']
 M2 = ['a', 'dC', 'uC', 'uCo', 'ocb', 'cb']
 M3 = ['a', 'b', 'dD', 'uD', 'dE', 'uE', 'dG', 'uG', 'dB', 'cb', 'uB']
 M4 = ['a', 'dA', 'uA', 'dF', 'uF', 'cb', 'sp', 'nl']
-MALL = sorted(set(M1 + M2 + M3 + M4 + ['fn', 'nl', 'im', 'add']))
+M5 = ['a', 'sp', 'dH', 'uH', 'cb', 'dC', 'uC', 'nl']
+MALL = sorted(set(M1 + M2 + M3 + M4 + M5 + ['fn', 'nl', 'im', 'add']))
 CITEO = ['a', 'sp', 'cto', 'ctc', 'ob', 'cb', 'rbk', 'b']
 INL1 = ['a', 'sp', 'mo', 'mc', 'my', 'mpl', 'mdt', 'msp', 'mfr']
 INL2 = ['a', 'mo', 'mc', 'mo2', 'mc2', 'my', 'mw', 'meq', 'mal', 'msb', 'mti', 'mcm', 'mob', 'mcb', 'fn', 'cb', 'add', 'it', 'bi', 'ei', 'sec']
@@ -55,13 +56,13 @@ CONFIG = {
                 sim=(PROSE, 300, 3000)),
     'C04': dict(key='c04', focus={'gls', 'uA', 'uB', 'uBt', 'uC', 'uCo', 'uD', 'uG', 'uF', 'ref', 'cite', 'im', 'imp', 'it', 'sec', 'sub', 'fn', 'cap', 'par', 'bm'},
                 quick=[(GENER, 3, 2), (['a', 'sp', 'nl', 'ref', 'cite', 'im', 'it', 'be', 'ee', 'sec', 'fn', 'cb', 'par'], 4, 2),
-                       (M1, 6, 2), (M2, 7, 2), (M3, 5, 2), (M4, 5, 2), (['a', 'sp', 'gld', 'gls', 'nl', 'fn', 'cb'], 6, 2)],
+                       (M1, 6, 2), (M2, 7, 2), (M3, 5, 2), (M4, 5, 2), (M5, 5, 2), (['a', 'sp', 'gld', 'gls', 'nl', 'fn', 'cb'], 6, 2)],
                 thorough=[(GENER, 4, 3), (['a', 'sp', 'nl', 'ref', 'cite', 'im', 'it', 'be', 'ee', 'sec', 'fn', 'cb', 'par'], 5, 3),
                           (M1, 8, 2), (M2, 9, 2), (M3, 6, 2), (M4, 7, 2)],
                 sim=(GENER, 300, 3000)),
     'C09': dict(key='c09', focus={'uA', 'uB', 'uBt', 'uC', 'uCo', 'uD', 'uE', 'uG', 'uF'},
-                quick=[(M1, 6, 2), (M2, 7, 2), (M3, 5, 2), (M4, 5, 2)],
-                thorough=[(M1, 8, 2), (M2, 9, 2), (M3, 6, 2), (M4, 7, 2), (MALL, 4, 2)],
+                quick=[(M1, 6, 2), (M2, 7, 2), (M3, 5, 2), (M4, 5, 2), (M5, 5, 2)],
+                thorough=[(M1, 8, 2), (M2, 9, 2), (M3, 6, 2), (M4, 7, 2), (M5, 7, 2), (MALL, 4, 2)],
                 sim=(MALL, 300, 3000), routes=True),
     'C10': dict(key='c10', focus={'mo', 'mo2'},
                 quick=[(INL1, 7, 2), (INL2, 5, 3), (INL3, 9, 2)],
@@ -74,7 +75,7 @@ CONFIG = {
     'C08': dict(key='c08', focus=set(FAULTS),
                 quick=[(['a', 'sp', 'nl', 'lb'] + FAULTS, 4, 1), (['a', 'nl', 'ltE', 'ltD'] + FAULTS, 3, 1), (FLT2, 3, 2), (['a', 'nl'] + FAULTS, 5, 1)],
                 thorough=[(['a', 'sp', 'nl', 'lb'] + FAULTS, 5, 1), (FLT2, 4, 2), (['a', 'nl'] + FAULTS, 7, 1)],
-                sim=(FLT2, 300, 3000)),
+                sim=(FLT2, 300, 3000), variants=[{}, {'seqs': True}, {'lang': 'ru'}]),
     'C18': dict(key='c18', focus={'fn', 'xo', 'cap', 'cmf', 'fnq'},
                 quick=[(EXTR, 4, 2), (['a', 'sp', 'fn', 'xo', 'cb', 'uk', 'ob', 'cmf', 'sec'], 5, 3), (['a', 'b', 'alt', 'acb', 'cb', 'fn', 'sp'], 6, 2)],
                 thorough=[(EXTR, 5, 3), (['a', 'sp', 'fn', 'xo', 'cb', 'uk', 'ob', 'cmf', 'sec'], 7, 3)],
@@ -103,7 +104,7 @@ def project(rec):
     return d
 
 
-DEFSYMS = {'dA', 'dB', 'dC', 'dD', 'dE', 'dF', 'dG', 'rB'}
+DEFSYMS = {'dA', 'dB', 'dC', 'dD', 'dE', 'dF', 'dG', 'rB', 'dH'}
 
 
 def drive_routes(case):
